@@ -12,6 +12,7 @@
 #include <vector>
 #include <random>
 #include <functional>
+#include <map>
 #include <poll.h>
 #include <signal.h>
 #include <sys/wait.h>
@@ -114,10 +115,13 @@ inline void emit(const json& j) {
 // the remaining cases are still checked. summary() is asked of every child before it ends.
 struct Supervisor {
     std::function<void()> initChild;
-    std::function<std::string(const std::string&)> handle;      // returns output lines (each ending in \n), may be empty
-    std::function<std::string()> summary;
+    // handle one input line: returns output lines (each ending in \n, may be empty); may add counter keys to
+    // 'stat' (tab separated; the PARENT aggregates them, so counts survive a child that is killed) and may set
+    // 'tainted' to ask for a fresh child (e.g. after the implementation reached a corrupt state).
+    std::function<std::string(const std::string&, std::string& stat, bool& tainted)> handle;
     std::function<std::string(const std::string&, const std::string&)> onFail;   // (line, "hang"|"crash:<n>") -> output lines
     int timeoutSec = 10;
+    std::map<std::string, long> counts;
 
     int toChild = -1, fromChild = -1;
     pid_t pid = -1;
@@ -135,12 +139,12 @@ struct Supervisor {
         while ((len = getline(&buf, &cap, fi)) > 0) {
             std::string line(buf, (size_t)len);
             if (!line.empty() && line.back() == '\n') line.pop_back();
-            std::string o;
-            bool end = (line == "\x02END");
-            o = end ? (summary ? summary() : std::string()) : handle(line);
-            o += "\x01\n";
+            std::string stat;
+            bool tainted = false;
+            std::string o = handle(line, stat, tainted);
+            o += "\x03" + stat + (tainted ? "\x04" : "") + "\x01\n";
             if (!writeAll(out, o.data(), o.size())) _exit(0);
-            if (end) break;
+            if (tainted) _exit(0);
         }
         _exit(0);
     }
@@ -161,7 +165,8 @@ struct Supervisor {
         toChild = fromChild = -1; pid = -1;
     }
     // returns: 0 answered, 1 hang, 2 died; answer appended to out
-    int ask(const std::string& line, std::string& out, std::string& what) {
+    int ask(const std::string& line, std::string& out, std::string& what, bool& respawn) {
+        respawn = false;
         std::string m = line + "\n";
         if (!writeAll(toChild, m.data(), m.size())) { what = "crash:pipe"; return 2; }
         std::string acc;
@@ -178,29 +183,50 @@ struct Supervisor {
                 return 2;
             }
             acc.append(buf, (size_t)k);
-            if (acc.size() >= 2 && acc.compare(acc.size() - 2, 2, "\x01\n") == 0) { out.append(acc, 0, acc.size() - 2); return 0; }
+            if (acc.size() >= 2 && acc.compare(acc.size() - 2, 2, "\x01\n") == 0) {
+                acc.resize(acc.size() - 2);
+                if (!acc.empty() && acc.back() == '\x04') { respawn = true; acc.pop_back(); }
+                size_t p3 = acc.rfind('\x03');
+                if (p3 != std::string::npos) {
+                    std::string stat = acc.substr(p3 + 1);
+                    acc.resize(p3);
+                    size_t i = 0;
+                    while (i < stat.size()) {
+                        size_t j = stat.find('\t', i);
+                        if (j == std::string::npos) j = stat.size();
+                        if (j > i) counts[stat.substr(i, j - i)]++;
+                        i = j + 1;
+                    }
+                }
+                out.append(acc);
+                return 0;
+            }
         }
     }
     int run() {
         signal(SIGPIPE, SIG_IGN);
         spawn();
         std::string line;
-        long fails = 0;
+        long fails = 0, lines = 0, respawns = 0;
         while (std::getline(std::cin, line)) {
             std::string out, what;
-            int r = ask(line, out, what);
+            bool respawn = false;
+            lines++;
+            int r = ask(line, out, what, respawn);
             if (r != 0) {
                 fails++;
                 out = onFail ? onFail(line, what) : std::string();
                 reap(true);
                 spawn();
+            } else if (respawn) {
+                respawns++;
+                reap(false);
+                spawn();
             }
             if (!out.empty()) fwrite(out.data(), 1, out.size(), stdout);
         }
-        std::string out, what;
-        if (ask("\x02END", out, what) == 0 && !out.empty()) fwrite(out.data(), 1, out.size(), stdout);
-        reap(false);
-        json s = {{"t", "summary"}, {"child_failures", fails}};
+        reap(true);
+        json s = {{"t", "summary"}, {"lines", lines}, {"child_failures", fails}, {"respawns", respawns}, {"counts", counts}};
         emit(s);
         fflush(stdout);
         return 0;
